@@ -134,7 +134,102 @@ def _model_value(m, v):
   return str(x)
 
 
-def smt_prove(alg: Z3Alg, pre, goal, timeout_s=30, name='', use_cvc5=True, side=False, seed=0):
+def _square_abstraction(formulas):
+  """innermost compound terms t that occur squared (t*t or t**2) somewhere in `formulas` -> substitution list [(t, fresh real)]"""
+  import z3
+  seen, cand = set(), {}
+
+  def walk(e):
+    if e.get_id() in seen:
+      return
+    seen.add(e.get_id())
+    ch = e.children()
+    if z3.is_mul(e):
+      cnt = {}
+      for c in ch:
+        cnt.setdefault(c.get_id(), []).append(c)
+      for k, v in cnt.items():
+        if len(v) >= 2 and v[0].num_args() > 0 and z3.is_real(v[0]):
+          cand[k] = v[0]
+    elif z3.is_app(e) and e.decl().kind() == z3.Z3_OP_POWER and ch[0].num_args() > 0 and z3.is_real(ch[0]):
+      cand[ch[0].get_id()] = ch[0]
+    for c in ch:
+      walk(c)
+  for f in formulas:
+    walk(f)
+  # a squared term that contains an if-then-else is replaced by its maximal if-free compound subterms (safe_norm: (y + [y ~ 0])^2 -> y)
+  memo_ite = {}
+
+  def has_ite(e):
+    k = e.get_id()
+    if k not in memo_ite:
+      memo_ite[k] = z3.is_app(e) and (e.decl().kind() == z3.Z3_OP_ITE or any(has_ite(c) for c in e.children()))
+    return memo_ite[k]
+
+  def free_parts(e, out, vis):
+    if e.get_id() in vis:
+      return
+    vis.add(e.get_id())
+    if not has_ite(e):
+      if z3.is_real(e) and e.num_args() > 0 and not z3.is_rational_value(e):
+        out[e.get_id()] = e
+      return
+    for c in e.children():
+      free_parts(c, out, vis)
+  refined = {}
+  for k, t in cand.items():
+    if has_ite(t):
+      free_parts(t, refined, set())
+    else:
+      refined[k] = t
+  cand = refined
+  ids = set(cand)
+
+  def has_inner(t):
+    vis = set()
+
+    def w(e):
+      for c in e.children():
+        if c.get_id() in vis:
+          continue
+        vis.add(c.get_id())
+        if c.get_id() in ids or w(c):
+          return True
+      return False
+    return w(t)
+  inner = [t for t in cand.values() if not has_inner(t)]
+  return [(t, z3.Real('abs!%d' % i)) for i, t in enumerate(inner)]
+
+
+def _abstract_prepass(alg, pre, goals, timeout_s, seed):
+  """generalisation pre-pass (can only prove): replace the innermost squared compound terms by fresh reals in premises and goals alike; a goal valid for
+  ALL values of the fresh reals is valid for the terms they stand for.  Returns the goals that are still open."""
+  import z3
+  facts = [a for a in list(pre) + list(alg.assume) + list(getattr(alg, 'assume_raw', [])) if not isinstance(a, bool)]
+  zg = [g for g in goals if not isinstance(g, bool)]
+  sub = _square_abstraction(facts + zg)
+  if not sub:
+    return goals, 0
+  facts = [z3.substitute(a, *sub) for a in facts]
+  still, done = [], 0
+  for g in goals:
+    if isinstance(g, bool):
+      still.append(g)
+      continue
+    s = z3.Solver()
+    s.set('timeout', int(timeout_s * 1000))
+    s.set('random_seed', seed)
+    for a in facts:
+      s.add(a)
+    s.add(z3.Not(z3.substitute(g, *sub)))
+    if s.check() == z3.unsat:
+      done += 1
+    else:
+      still.append(g)
+  return still, done
+
+
+def smt_prove(alg: Z3Alg, pre, goal, timeout_s=30, name='', use_cvc5=True, side=False, seed=0, abstract=False):
   """Valid(pre & alg.assume => goal)?  pre: list of z3 bools.  goal: z3 bool or list (conjunction).
   Returns Result: proved (unsat), refuted (sat + model as witness), undecided."""
   import z3
@@ -147,6 +242,14 @@ def smt_prove(alg: Z3Alg, pre, goal, timeout_s=30, name='', use_cvc5=True, side=
     return Result(REFUTED, 'goal is the constant False', witness={})
   if not goals:
     return Result(PROVED, 'goal is trivially true after partial evaluation / term simplification (%d clauses)' % pre_n, stats={'queries': 0, 'clauses': pre_n})
+  n_abs = 0
+  if abstract:
+    if any(isinstance(a, bool) and not a for a in pre):
+      return Result(ERROR, 'precondition is the constant False (vacuous)')
+    goals, n_abs = _abstract_prepass(alg, pre, goals, min(20, timeout_s), seed)
+    if not goals:
+      return Result(PROVED, 'unsat (all %d clauses after abstraction of squared subterms by fresh reals)' % n_abs,
+                    stats={'solver': 'z3 ' + z3.get_version_string(), 'queries': n_abs, 'clauses': pre_n, 'abstracted_clauses': n_abs})
   s = z3.Solver()
   s.set('timeout', int(timeout_s * 1000))
   s.set('random_seed', seed)
@@ -160,8 +263,8 @@ def smt_prove(alg: Z3Alg, pre, goal, timeout_s=30, name='', use_cvc5=True, side=
   t0 = time.time()
   r = s.check()
   dt = time.time() - t0
-  stats = {'solver': 'z3 ' + z3.get_version_string(), 'solver_s': round(dt, 3), 'queries': 1,
-           'assertions': len(s.assertions())}
+  stats = {'solver': 'z3 ' + z3.get_version_string(), 'solver_s': round(dt, 3), 'queries': 1 + n_abs,
+           'assertions': len(s.assertions()), 'abstracted_clauses': n_abs}
   if r == z3.unsat:
     return Result(PROVED, 'unsat', stats=stats)
   if r == z3.sat:
